@@ -267,7 +267,8 @@ func (g *gen) call() CStep {
 
 func (g *gen) govOp() CStep {
 	r := g.r
-	st := CStep{Op: "gov", A: r.Intn(4), B: r.Intn(4), N: r.Intn(4), Obj: []string{"chain", "service", "service"}[r.Intn(3)], Act: []string{"freeze", "freeze", "activate", "activate", "logout"}[r.Intn(5)]}
+	// (operations concentrate on the first objects so that concurrent proposals on one object are common)
+	st := CStep{Op: "gov", A: []int{0, 0, 0, 1, 1, 2, 3}[r.Intn(7)], B: r.Intn(4), N: r.Intn(4), Obj: []string{"chain", "service", "service"}[r.Intn(3)], Act: []string{"freeze", "freeze", "activate", "activate", "logout"}[r.Intn(5)]}
 	// the role that is allowed to do it, most of the time
 	switch st.Act {
 	case "freeze":
